@@ -22,12 +22,15 @@ GEN = ["Gen_Inject", "Gen_Body"]
 RULE = ("methods, URL parts, header names and header values drawn from a hostile alphabet (CR, LF, CRLF, NUL, DEL, SP, HTAB, ':', non-ASCII, percent "
         "escapes, embedded complete requests, obs-fold continuations, the SKIP_HEADER sentinel) mixed with ordinary ones, caller-supplied and suppressed "
         "Host / Accept-Encoding / User-Agent, bodies (bytes, text, iterables of text and bytes chunks with non-ASCII characters and embedded chunk "
-        "terminators / complete requests), through HTTPConnection.request, HTTPConnectionPool.urlopen and PoolManager.request; "
+        "terminators / complete requests), through HTTPConnection.request, HTTPConnectionPool.urlopen and PoolManager.request; HTTP2Connection.putheader with hostile names and values; "
+        "the CONNECT request a ProxyManager sends for an https URL with hostile text in the host, the port given or not, and in proxy header names and values; "
         "non-trivial = some hostile character present; distinct = distinct (case, observation)")
 TRUSTED_BASE = [
     "model coq/model/ReqHead.v (HTTPConnection.request / putrequest / putheader and, below them, http.client's validation and output of Python 3.12) with coq/model/Url.v for the target",
     "the reader the theorems use is a strict CRLF reader with obs-fold; what lenient servers make of a bare LF or CR inside a folded value is outside",
-    "the model covers the head; requests with a body are read back by the oracle's own strict reader (head, then exactly the declared length or a well-formed chunked body carrying exactly the payload, and nothing after it); HTTP/2 header validity is checked by the oracle only",
+    "the model covers the head; requests with a body are read back by the oracle's own strict reader (head, then exactly the declared length or a well-formed chunked body carrying exactly the payload, and nothing after it)",
+    "model coq/model/Tunnel.v: HTTPConnection.set_tunnel's checks with the character classes regenerated from the source, and, transcribed by hand, http.client's set_tunnel/_tunnel of CPython 3.12 (Host field added when absent, fields written as 'name: value' in latin-1); IDNA hosts and bracketed IPv6 literals are judged by the oracle only",
+    "model coq/model/Tunnel.v: HTTP2Connection.putheader with the name class and its end anchor regenerated from the source; the value pattern is pinned as text and transcribed by hand; what h2 does with the kept fields is outside",
 ]
 ASSUMPTIONS = ["header names are distinct case-insensitively", "str inputs (not bytes)"]
 EXHAUSTIVE = {"quick": False, "thorough": False}
